@@ -139,7 +139,16 @@ func genGate(r *Rng, prop string, k int) *RunSpec {
 			gateBody(r, st, kind, &rq, &ge)
 		}
 		if kind == "handler" {
-			rq.Path = pathOf(Pick(r, []string{st.Note1, st.Note2, tomb, hostPrefix(st) + "/n/none", st.Col1}))
+			rq.Path = pathOf(Pick(r, []string{st.Note1, st.Note2, tomb, tomb, hostPrefix(st) + "/n/none", st.Col1}))
+			if r.Intn(3) == 0 {
+				// a second look at what an earlier request of this run asked for, after that one has been answered
+				for j := len(reqs) - 1; j >= 0; j-- {
+					if reqs[j].Kind == "handler" {
+						rq.Path, rq.After = reqs[j].Path, []string{reqs[j].ID}
+						break
+					}
+				}
+			}
 		}
 		if kind == "postInbox" && len(reqs) > 0 && r.Intn(3) == 0 {
 			// a peer fans one activity out to several inboxes of this server: same body, same id, its own checks per request
@@ -218,6 +227,8 @@ func gateBody(r *Rng, st *Std, kind string, rq *ReqSpec, ge *gateReq) {
 			st.act("Block", J{"object": st.Alice.ID}),
 			st.act("Listen", J{"object": st.RNote}),
 			st.act("Create", J{"object": []string{"https://" + hostR + "/n/gone1", "https://" + hostR + "/n/gone2"}, "to": st.Alice.ID}), // by reference; the documents are unreachable
+			st.act("Add", J{"object": st.RNote, "target": st.Note2}),  // object and target are there; the target is owned but no collection
+			st.act("Remove", J{"object": st.Dave, "target": st.Note1}),
 		}
 	} else {
 		a := st.Alice.ID
@@ -232,6 +243,8 @@ func gateBody(r *Rng, st *Std, kind string, rq *ReqSpec, ge *gateReq) {
 			{"@context": asCtx, "type": "Undo", "actor": st.Dave, "object": st.RLike},
 			{"@context": asCtx, "type": "Block", "actor": a, "object": st.Dave},
 			{"@context": asCtx, "type": "Listen", "actor": a, "object": st.RNote, "to": st.Dave},
+			{"@context": asCtx, "type": "Add", "actor": a, "object": st.Note1, "target": st.Note2},
+			{"@context": asCtx, "type": "Remove", "actor": a, "object": st.Dave, "target": st.Note2},
 		}
 	}
 	body := cloneJ(Pick(r, valid))
@@ -244,6 +257,10 @@ func gateBody(r *Rng, st *Std, kind string, rq *ReqSpec, ge *gateReq) {
 			}
 		}
 		variant = Pick(r, []int{6, 7, 13})
+	}
+	if kind == "postInbox" && r.Intn(8) == 0 {
+		// a peer hands one of this server's own activities back (a forwarded copy): the id is on our host
+		body["id"] = hostPrefix(st) + "/act/own" + fmt.Sprint(r.Intn(3))
 	}
 	ge.Type = typeOf(body)
 	ge.Body = "valid"
